@@ -284,6 +284,7 @@ pub struct World {
     pub params: Parameters,
     pub parties: Vec<Party>,
     pub total: u64,
+    #[allow(dead_code)]
     pub closed: ClosedKeyRegistration,
     pub signers: Vec<Signer<D>>,
     pub clerk: Clerk<D>,
